@@ -156,7 +156,10 @@ def attach_vf2(case):
     H, P = G.to_nx(case["host"]), G.to_nx(case["pattern"])
     with record_vf2() as r:
         for st in ("all", "comp"):
-            _call(H, P, case, [st, None, 10 ** 9, False, False])
+            try:
+                _call(H, P, case, [st, None, 10 ** 9, False, False])
+            except Exception:       # an implementation that raises is reported by impl()/oracle() on the case, not here
+                pass
         case["vf2"] = r.table()
     return case
 
@@ -328,8 +331,14 @@ def oracle(case):
     for cfg in case["cfgs"]:
         st, mr, thr, strict, pref = cfg
         T = _thr(thr)
-        R = _call(H, P, case, cfg)
         tag = "cfg=%r" % (cfg,)
+        try:
+            R = _call(H, P, case, cfg)
+            unlimited(st, strict)
+            unlimited("all", strict)
+        except Exception as e:      # the search must return a list for every input of the domain
+            bad("raises", "%s: %s: %s" % (tag, type(e).__name__, e))
+            break
         if _snapshot(H) != snapH or _snapshot(P) != snapP:
             bad("inputs-unmodified", tag)
             break
